@@ -100,8 +100,12 @@ func (m *Metrics) Close() {
 	m.Wait = m.End.Sub(m.Latest)
 	if secs := m.Duration.Seconds(); secs > 0 {
 		m.Rate /= secs
-		// No need to check for zero because we know m.Duration > 0
-		m.Throughput /= (m.Duration + m.Wait).Seconds()
+	}
+	// The throughput is taken over the total period (attack + wait), which
+	// isn't empty when all requests were issued at the same instant (a
+	// single request, say) and took some time to be answered.
+	if secs := (m.Duration + m.Wait).Seconds(); secs > 0 {
+		m.Throughput /= secs
 	}
 
 	m.BytesIn.Mean = float64(m.BytesIn.Total) / float64(m.Requests)
